@@ -68,8 +68,14 @@ func C19(c *Ctx) {
 			c.RunSym(SymJob{Name: fmt.Sprintf("bad input %d ts=%d", w, ts), Eng: eng, PkgPath: RepoModule + "/Builder", Entry: "VerifGenBadInput",
 				Args: []int{ts, w}, Replay: ReplaySpec{Kind: "repo", PkgDirs: []string{"Builder"}}, Need: []string{"bad-input"}, noNativeReplay: true})
 		}
+		for w := 0; w <= 2; w++ {
+			c.RunSym(SymJob{Name: fmt.Sprintf("shape %d ts=%d", w, ts), Eng: eng, PkgPath: RepoModule + "/Builder", Entry: "VerifGenShapes",
+				Args: []int{ts, w}, Replay: ReplaySpec{Kind: "repo", PkgDirs: []string{"Builder"}}, Need: []string{"shape"}, noNativeReplay: true})
+		}
 		c.MarkDistinct(fmt.Sprintf("lang %d", ts))
 	}
+	c.Bound("optional parts of the file absent (no %%{ %%} section, empty epilogue, no second %%%%), both languages: the output equals the output with the part present minus that part (engine: data handed to the template / strings written; natively: bytes of the files)")
+	c.Harnesses = append(c.Harnesses, "harness/Builder/zz_verif_fault.go:VerifGenShapes")
 	if known < 12 {
 		c.Inconclusive("only %d fault points were reached (function names changed?)", known)
 	}
@@ -114,6 +120,43 @@ func c19Native(c *Ctx) {
 				WriteJSON(path, map[string]interface{}{"property": c.ID, "key": key, "kind": "cli", "input_text": text, "language": lang,
 					"replay": "write input_text to bad.y, put a file at out, run yaccgo generate " + lang + " bad.y out, compare out"})
 				c.Report(key, fmt.Sprintf("yaccgo generate %s failed on %q but the pre-existing output file was modified", lang, text), path)
+			}
+		}
+		// optional parts absent: the file is the complete file minus that part
+		{
+			pro := "\npackage gp\n// PROLOGUE-BODY\n"
+			epi := "\nfunc GetToken(input string, valTy *ValType, pos *int) int { return -1 }\n// EPILOGUE-END"
+			body := "%union {\n\tval int\n}\n%token <val> 'n'\n%type <val> L E\n%start L\n%%\nL : { $$ = 0 } | E L { $$ = $1 + $2 }\nE : 'n' { $$ = $1 }\n"
+			gen := func(name, text string) []byte {
+				in := filepath.Join(dir, name+".y")
+				out := filepath.Join(dir, fmt.Sprintf("%s_%d.txt", name, li))
+				os.WriteFile(in, []byte(text), 0o644)
+				os.WriteFile(out, marker, 0o644)
+				runCLI(cli, dir, 20*time.Second, "generate", lang, in, out)
+				b, _ := os.ReadFile(out)
+				return b
+			}
+			full := gen("full", "%{"+pro+"%}\n"+body+"%%"+epi)
+			shapes := []struct{ name, text, removed string }{
+				{"noprologue", "\n\n\n\n" + body + "%%" + epi, pro}, // blank lines keep the rule line numbers of the emitted comments
+				{"emptyepilogue", "%{" + pro + "%}\n" + body + "%%", epi},
+				{"nosecondsection", "%{" + pro + "%}\n" + body, epi},
+			}
+			for _, sh := range shapes {
+				got := gen(sh.name, sh.text)
+				c.Validated++
+				want := strings.Replace(string(full), sh.removed, "", 1)
+				if !strings.Contains(string(full), sh.removed) {
+					c.Inconclusive("c19 native: the full output does not contain the %s text", sh.name)
+					continue
+				}
+				if string(got) != want {
+					key := "shape:" + sh.name + ":" + lang
+					path := filepath.Join(VerifDir, "replays", c.ID, sanitize(key)+".json")
+					WriteJSON(path, map[string]interface{}{"property": c.ID, "key": key, "kind": "cli", "input_text": sh.text, "language": lang,
+						"replay": "generate this text and the same text with the missing part present; the first output must be the second minus that part"})
+					c.Report(key, fmt.Sprintf("yaccgo generate %s on a grammar without an optional part (%s) does not produce the complete file (%d bytes instead of %d)", lang, sh.name, len(got), len(want)), path)
+				}
 			}
 		}
 		// success: complete file ending with the epilogue
